@@ -34,6 +34,7 @@ typedef struct sthread {
     /* allocation fault arming (per thread) */
     int arm_k, arm_kinds, arm_fired, cnt_kinds, cnt;
     uint64_t nsteps;
+    uint64_t born; /* G.steps when the thread was created */
 } sthread;
 
 enum { STRAT_RANDOM = 0, STRAT_PCT, STRAT_STALL, STRAT_TARGET, STRAT_SLOW, STRAT_RR, STRAT_N };
